@@ -3,7 +3,7 @@
    and decoders (VcfReader._extract_GT_PS_phase / _extract_HP_phase, phased_blocks_as_reads) as modelled
    in coq/model/VcfRecord.v; the model is tied to the code by harness/props/C09.py (and C04.py).
 
-   The faithful model of the CURRENT code (cur_rules, cur_guard) refutes three clauses; each refutation
+   The faithful model of the CURRENT code (orig_rules, orig_guard) refutes three clauses; each refutation
    is a concrete file found by the correspondence check on the real tool and replayed here by
    vm_compute.  The repaired rules (fix_rules: remove every phase statement of a target call before
    writing, for either tag; assign the ascending genotype in the genotype-change branch; write '.' for
@@ -27,7 +27,7 @@ Print Assumptions C09_decode_encode_PS.
 (* what _set_HP writes decodes to the tuple -- provided GT is the ascending 0/1 *)
 Theorem C09_decode_encode_HP :
   forall guard (c : call) (comp : Z) (ph : list nat),
-    guard = cur_guard \/ guard = fix_guard ->
+    guard = orig_guard \/ guard = fix_guard ->
     gt c = Some [Some 0; Some 1]%nat ->
     ph = [0; 1]%nat \/ ph = [1; 0]%nat ->
     decode_HP guard (set_HP c comp ph) = Ok (Some (mkPhase (Some (comp + 1)) (map Some ph) (pq c))).
@@ -38,7 +38,7 @@ Print Assumptions C09_decode_encode_HP.
    Genotype.as_vector() is descending) the same HP value decodes to the flipped phase *)
 Theorem C09_decode_encode_HP_descending_flips :
   forall guard (c : call) (comp : Z),
-    guard = cur_guard \/ guard = fix_guard ->
+    guard = orig_guard \/ guard = fix_guard ->
     gt c = Some [Some 1; Some 0]%nat ->
     decode_HP guard (set_HP c comp [0; 1]%nat)
     = Ok (Some (mkPhase (Some (comp + 1)) [Some 1; Some 0]%nat (pq c))).
@@ -61,7 +61,7 @@ Definition w1_input : list vrec :=
 Definition w1_plan : list (token * list target) := [(7, [mkTarget 0 [(50, [0; 1]%nat)] [(50, 50)]])].
 Definition w_cf := mkCfg TagPS false false true.
 
-Theorem C09_ps_hp_equivalent_refuted : ~ C09_ps_hp_equivalent_full_statement cur_rules cur_guard.
+Theorem C09_ps_hp_equivalent_refuted : ~ C09_ps_hp_equivalent_full_statement orig_rules orig_guard.
 Proof.
   intros H.
   specialize (H w_cf w1_plan w1_input).
@@ -72,11 +72,11 @@ Print Assumptions C09_ps_hp_equivalent_refuted.
 
 (* the witness spelled out: the two decoded tables *)
 Example C09_ps_hp_witness_tables :
-  (exists oP, phase_writer (with_tag w_cf TagPS) cur_rules w1_plan w1_input = Ok oP /\
-     read_file cur_guard false false oP =
+  (exists oP, phase_writer (with_tag w_cf TagPS) orig_rules w1_plan w1_input = Ok oP /\
+     read_file orig_guard false false oP =
      Ok [(7, [mkRow 50 [[0; 1]%nat] [Some (mkPhase (Some 51) [Some 0; Some 1]%nat None)]])]) /\
-  (exists oH, phase_writer (with_tag w_cf TagHP) cur_rules w1_plan w1_input = Ok oH /\
-     read_file cur_guard false false oH =
+  (exists oH, phase_writer (with_tag w_cf TagHP) orig_rules w1_plan w1_input = Ok oH /\
+     read_file orig_guard false false oH =
      Ok [(7, [mkRow 50 [[0; 1]%nat] [Some (mkPhase (Some 51) [Some 1; Some 0]%nat None)]])]).
 Proof. split; eexists; split; vm_compute; reflexivity. Qed.
 
@@ -126,7 +126,7 @@ Proof.
   split; repeat constructor; cbn; try discriminate.
 Qed.
 
-Theorem C09_rephase_no_stale_phase_refuted : ~ C09_rephase_no_stale_phase_full_statement cur_rules.
+Theorem C09_rephase_no_stale_phase_refuted : ~ C09_rephase_no_stale_phase_full_statement orig_rules.
 Proof.
   intros H. specialize (H (with_tag w_cf TagHP) w2_plan w2_input _ (proj1 w_inputs_wf) eq_refl eq_refl).
   vm_compute in H. discriminate.
@@ -135,15 +135,15 @@ Print Assumptions C09_rephase_no_stale_phase_refuted.
 
 Example C09_rephase_witnesses :
   (* PS -> HP *)
-  (exists o, phase_writer (with_tag w_cf TagHP) cur_rules w2_plan w2_input = Ok o /\
+  (exists o, phase_writer (with_tag w_cf TagHP) orig_rules w2_plan w2_input = Ok o /\
              file_no_stale fix_guard (with_tag w_cf TagHP) w2_plan w2_input o = false /\
-             read_file cur_guard false false o = Err EMixed) /\
+             read_file orig_guard false false o = Err EMixed) /\
   (* HP -> PS *)
-  (exists o, phase_writer (with_tag w_cf TagPS) cur_rules w3_plan w3_input = Ok o /\
+  (exists o, phase_writer (with_tag w_cf TagPS) orig_rules w3_plan w3_input = Ok o /\
              file_no_stale fix_guard (with_tag w_cf TagPS) w3_plan w3_input o = false /\
-             read_file cur_guard false false o = Err EMixed) /\
+             read_file orig_guard false false o = Err EMixed) /\
   (* HP -> HP, nothing phased this time *)
-  (exists o, phase_writer (with_tag w_cf TagHP) cur_rules w4_plan w3_input = Ok o /\
+  (exists o, phase_writer (with_tag w_cf TagHP) orig_rules w4_plan w3_input = Ok o /\
              file_no_stale fix_guard (with_tag w_cf TagHP) w4_plan w3_input o = false).
 Proof. repeat split; eexists; repeat split; vm_compute; reflexivity. Qed.
 
@@ -175,7 +175,7 @@ Definition w5_plan : list (token * list target) :=
   [(7, [mkTarget 0 [(50, [0; 1]%nat)] [(50, 50)]; mkTarget 1 [(50, [1; 1]%nat)] [(50, 50)];
         mkTarget 2 [(50, [0; 0]%nat)] [(50, 50)]])].
 
-Theorem C09_decode_written_refuted : ~ C09_decode_written_full_statement cur_rules cur_guard.
+Theorem C09_decode_written_refuted : ~ C09_decode_written_full_statement orig_rules orig_guard.
 Proof.
   intros H.
   assert (W : wf_input w5_input) by (repeat constructor; cbn; discriminate).
@@ -185,8 +185,8 @@ Qed.
 Print Assumptions C09_decode_written_refuted.
 
 Example C09_decode_written_witness :
-  exists o, phase_writer (with_tag w_cf TagHP) cur_rules w5_plan w5_input = Ok o /\
-            read_file cur_guard false false o = Err EAttr /\
+  exists o, phase_writer (with_tag w_cf TagHP) orig_rules w5_plan w5_input = Ok o /\
+            read_file orig_guard false false o = Err EAttr /\
             exists tabs, read_file fix_guard false false o = Ok tabs /\
                          file_decodes (with_tag w_cf TagHP) w5_plan tabs = true.
 Proof. eexists. split; [vm_compute; reflexivity|]. split; [vm_compute; reflexivity|].
